@@ -30,10 +30,16 @@ STRENGTH_ID = {
  "C15-m5": "an empty kwargs mapping on un-batched calls", "C15-m6": "caught as built", "C17-m5": "caught as built", "C17-m6": "caught as built",
  "C19-m5": "getters that fail with KeyboardInterrupt / SystemExit at every point of their stream, for DiskCacher and under ConcurrentCacher; found and fixed 9f814b6 on the way", "C19-m6": "slot law: child interpreters with other string-hash seeds must map every key to the same lock-table slot",
  "C08-m5": "payload law: None and falsy items (first or later) through Multiprocessor and CobaMultiprocessor", "C08-m6": "a lazy item stream that re-fills one buffer object in place (scheduled co-simulation)",
+ "C01-m5": "caught as built", "C01-m6": "two learners of ONE class of which only one offers score, under evaluators that ask (SequentialCB eval='ips' without action/probability records, RejectionCB)",
+ "C03-m5": "an environment object that can be iterated like a pipeline and whose iteration fails", "C03-m6": "first reported through the broken translator template only; a learner with a finish() hook that changes its behaviour now gives the concrete input",
+ "C12-m5": "caught as built (empty write calls)", "C12-m6": "caught as built (nominal levels with a blank before an inner comma)", "C09-m5": "first reported without a concrete input; seeds that put the largest generator state on one of the first draws were added for Shuffle and Reservoir", "C09-m6": "caught as built",
+ "C20-m5": "dense namespaces of 999-4097 values next to a string / sparse namespace", "C20-m6": "caught as built", "C11-m5": "caught as built", "C11-m6": "caught as built", "C07-m5": "caught as built", "C07-m6": "caught as built",
+ "C16-m5": "actions that are coba's own row types (HeadDense, LazyDense, LazySparse)", "C16-m6": "first reported without a concrete input; histories that open with one single action offered repeatedly were added",
+ "C18-m5": "caught as built", "C18-m6": "Results with 12-13 environments (ids of one and two digits); C17's generator got single-keyword 'in' conditions over values 0..11 as well", "C02-m5": "caught as built", "C02-m6": "a log of more than a thousand records (36 x 30 triples) is resumed at three cut points",
  "C20-m3": "caught as built (interleaved terms such as 'xax')", "C20-m4": "caught as built (number-first mixed sequences)",
 }
 def heading(pid, m):
-    sub = "-scratch3" if m in ("m5", "m6") else "-scratch2" if m in ("m3", "m4") else "-scratch"
+    sub = "-scratch4" if m in ("m7", "m8") else "-scratch3" if m in ("m5", "m6") else "-scratch2" if m in ("m3", "m4") else "-scratch"
     p = os.path.join(WT, pid + sub, "notes.md")
     if not os.path.exists(p): return None
     txt = open(p).read()
